@@ -107,7 +107,7 @@ def run(tier, seed):
     if err:
         res.broken.append(("model driver build", err))
         drv = NO_MODEL
-    names = (st.get("modules", {}).get(GENMOD, {}) or {}).get("names", [])
+    names = (st.get("modules", {}).get(GENMOD, {}) or {}).get("names", []) + (st.get("modules", {}).get(GENMOD, {}) or {}).get("untranslated", [])
     T = kernel_table("avx")
     missing = [k for k in T if k not in names]
     if missing:
